@@ -5,16 +5,16 @@
 
 struct Point2 Point2_op_sub__contract(struct Point2 *this_, struct Point2 *point_right)
 __CPROVER_assigns()
-__CPROVER_ensures(SAME(__CPROVER_return_value.point.e[0], this_->point.e[0] - point_right->point.e[0]))
-__CPROVER_ensures(SAME(__CPROVER_return_value.point.e[1], this_->point.e[1] - point_right->point.e[1]))
+__CPROVER_ensures(SAMEV(__CPROVER_return_value.point.e[0], FPXA(this_->point.e[0] - point_right->point.e[0])))
+__CPROVER_ensures(SAMEV(__CPROVER_return_value.point.e[1], FPXA(this_->point.e[1] - point_right->point.e[1])))
 __CPROVER_ensures(__CPROVER_return_value.coordinate_system == this_->coordinate_system)
 ;
 double Point2_dot__contract(struct Point2 *this_, struct Point2 *point_right)
 __CPROVER_assigns()
-__CPROVER_ensures(SAME(__CPROVER_return_value, DOT2(this_->point.e[0], this_->point.e[1], point_right->point.e[0], point_right->point.e[1])))
+__CPROVER_ensures(SAMEV(__CPROVER_return_value, DOT2(this_->point.e[0], this_->point.e[1], point_right->point.e[0], point_right->point.e[1])))
 ;
 double Point2_norm_square__contract(struct Point2 *this_)
 __CPROVER_assigns()
-__CPROVER_ensures(SAME(__CPROVER_return_value, SQ2(this_->point.e[0], this_->point.e[1])))
+__CPROVER_ensures(SAMEV(__CPROVER_return_value, SQ2(this_->point.e[0], this_->point.e[1])))
 ;
 #endif
